@@ -138,6 +138,10 @@ func (w *world) learnedAddrs() map[string]string {
 type obs struct {
 	afterDisconnect bool
 	raced           bool
+	// the victim had already been without any connection to P earlier in the case: a message consumed in
+	// such a gap is stored with the finite lifetime and is not trimmed by a LATER disconnect (it is bounded
+	// by the per-message and peerstore caps), so the tight number is not what the statement promises there
+	zeroBefore bool
 	hadLearned      int
 }
 
@@ -317,7 +321,10 @@ func (w *world) observe(label string, o obs) {
 		// disconnect the statement only promises "capped" (a message consumed after the disconnect
 		// handler ran is bounded by the per-message cap), so the tight number is demanded only when
 		// nothing was in flight.
-		if !o.raced && learned > capAddrsAfterDisc {
+		if !o.raced && !o.zeroBefore {
+			w.count("after_disconnect_tight_cap_demanded", 1)
+		}
+		if !o.raced && !o.zeroBefore && learned > capAddrsAfterDisc {
 			w.violate("cap:addresses-after-disconnect", fmt.Sprintf("[%s] %d addresses learned from P are kept after the last connection closed (cap %d)", label, learned, capAddrsAfterDisc), map[string]any{"stored": learned, "before_disconnect": o.hadLearned})
 		}
 		if learned > capAddrsAfterDisc {
